@@ -60,6 +60,7 @@ func ConvertToParagraph(incoming interface{}) (*Paragraph, error) {
 func convertToParagraph(data reflect.Value) (*Paragraph, error) {
 	order := []string{}
 	values := map[string]string{}
+	omitted := map[string]bool{}
 
 	if data.Type().Kind() != reflect.Struct {
 		return nil, fmt.Errorf("Can only Decode a Struct")
@@ -96,6 +97,9 @@ func convertToParagraph(data reflect.Value) (*Paragraph, error) {
 
 		required := fieldType.Tag.Get("required") == "true"
 		if data == "" && !required {
+			/* Nothing to write. What the embedded Paragraph has under this
+			 * key is what the field held once, not what it holds now. */
+			omitted[paragraphKey] = true
 			continue
 		}
 
@@ -106,7 +110,16 @@ func convertToParagraph(data reflect.Value) (*Paragraph, error) {
 		order = append(order, paragraphKey)
 		values[paragraphKey] = data
 	}
-	para := foundParagraph.Update(Paragraph{Order: order, Values: values})
+
+	/* Fields the struct doesn't know about are kept as they've been read,
+	 * the others reflect the current state of the struct. */
+	kept := Paragraph{Order: []string{}, Values: map[string]string{}}
+	for _, key := range foundParagraph.Order {
+		if !omitted[key] {
+			kept.Set(key, foundParagraph.Values[key])
+		}
+	}
+	para := kept.Update(Paragraph{Order: order, Values: values})
 	return &para, nil
 }
 
